@@ -531,6 +531,19 @@ def run_built_by_history(chk, spec):
 		elif what == "none-first-then-nested":
 			obj = Table([Vector([None, "b"], name="key"), Vector([None, 2], name="n"), Vector([Vector([1, 2]), Vector([3, 4])], dtype=object, name="members")])
 			size = "2×3 table"
+		elif what.startswith("hostile-number"):
+			class HI(int):
+				__str__ = __repr__ = lambda self: 1 / 0
+			class HF(float):
+				__str__ = __repr__ = lambda self: 1 / 0
+				def __format__(self, f):
+					raise RuntimeError("no format")
+			class HD(date):
+				def isoformat(self):
+					raise KeyError("no iso")
+				__str__ = __repr__ = lambda self: 1 / 0
+			obj, size = {"hostile-number-int": lambda: (Vector([HI(1), 2]), "2 element vector"), "hostile-number-float": lambda: (Vector([HF(1.5), 2.5, HF(2.0)]), "3 element vector"), "hostile-number-date": lambda: (Vector([HD(2020, 1, 1), date(2020, 1, 2)]), "2 element vector"),
+				"hostile-number-table": lambda: (Table({"a": [HI(1), 2], "b": [HF(2.0), 1.0], "c": [HD(2020, 1, 1), None]}), "2×3 table"), "hostile-number-int-in-float": lambda: (Vector([HI(1), 2.5]), "2 element vector")}[what]()
 		else:
 			mode = spec["mode"]
 			ns = {}
@@ -607,6 +620,8 @@ def run(chk):
 				for twice in (False, True):
 					chk.case("repr_then_use", {"nrows": nrows, "new": new, "touch_first": touch_first, "twice": twice}, "repr-then-use")
 	for what in ("date-in-datetime-vector", "date-in-datetime-column", "inferred-datetime-then-date", "none-before-nested-column", "none-first-then-nested"):
+		chk.case("built_by_history", {"what": what}, "built-by-history")
+	for what in ("hostile-number-int", "hostile-number-float", "hostile-number-date", "hostile-number-table", "hostile-number-int-in-float"):
 		chk.case("built_by_history", {"what": what}, "built-by-history")
 	for what in ("hostile-str-cells", "hostile-str-object-cells", "hostile-str-vector-name", "hostile-str-table", "hostile-str-row", "hostile-str-tuple-cell"):
 		for mode in ("str", "repr", "both"):
